@@ -254,12 +254,13 @@ def run_harness(h: Harness, *, tier: str, known_active: set[str], seed: int = 0)
     stubs: set[str] = set()
     truncated = False
     preds: list = []
+    shared: dict = {}
     while stack:
         if len(paths) >= h.max_paths:
             truncated = True
             break
         ch = stack.pop()
-        eng = Engine(ch, timeout_ms=timeout_ms, path_no=len(paths))
+        eng = Engine(ch, timeout_ms=timeout_ms, path_no=len(paths), shared=shared)
         try:
             outcome, res = _engine.run_once(body, eng)
         except Exception as e:
@@ -272,7 +273,7 @@ def run_harness(h: Harness, *, tier: str, known_active: set[str], seed: int = 0)
         model = pred = None
         if outcome == 'end' and eng.backedge:
             outcome = 'backedge'
-        if outcome in ('done', 'backedge') and h.native_check:
+        if outcome in ('done', 'backedge') and h.native_check and not eng.no_crosscheck:
             if eng.solver.check() == z3.sat:
                 m = eng.solver.model()
                 model = eng._extract_model(m)
